@@ -7,13 +7,13 @@ Open Scope Z_scope.
 
 (* ---- well-formed rows: only an established connection holds connection-level resources ------------------- *)
 Definition res_free (r : row) : Prop :=
-  ui r = false /\ uu r = false /\ di r = false /\ du r = false /\ tu r = false /\ td r = false /\
+  ui r = false /\ uu r = false /\ us r = false /\ di r = false /\ du r = false /\ tu r = false /\ td r = false /\
   uc r = false /\ dc r = false /\ reqs r = [] /\ cur r = CNone.
 Definition row_wf (r : row) : Prop :=
   match ph r with
   | PNone => fd r = false /\ pe r = false /\ pi_c r = false /\ pi_h r = false /\ res_free r
   | PHs => fd r = true /\ res_free r
-  | PConn => fd r = true
+  | PConn => fd r = true /\ us r && uu r = false      (* a snubbed connection is choked *)
   end.
 
 Definition good (f : row -> row * vec) : Prop :=
@@ -41,12 +41,12 @@ Ltac brk2 :=
          | |- context[match map ?f ?l with [] => _ | _ :: _ => _ end] => is_var l; destruct l
          end).
 Ltac open_row :=
-  intros [c p i e h dl bf xi xp f pe ui uu ur di du dr dn px tu td uc dc rq cu ps pc phh t cl] W;
+  intros [c p i e h dl bf xi xp f pe ui uu ur usn di du dr dn px tu td uc dc rq cu ps pc phh t cl] W;
   unfold row_wf, res_free in W; cbn in W;
   destruct p; cbn in W;
-  [ destruct W as (-> & -> & -> & -> & -> & -> & -> & -> & -> & -> & -> & -> & -> & ->)
-  | destruct W as (-> & -> & -> & -> & -> & -> & -> & -> & -> & -> & ->)
-  | subst f ].
+  [ destruct W as (-> & -> & -> & -> & -> & -> & -> & -> & -> & -> & -> & -> & -> & -> & ->)
+  | destruct W as (-> & -> & -> & -> & -> & -> & -> & -> & -> & -> & -> & ->)
+  | destruct W as [-> W2]; destruct usn, uu; cbn in W2; try discriminate W2; clear W2 ].
 Ltac close_row := unfold row_wf, res_free; brk2; try unfold uq, dq; cbn; repeat split; try reflexivity.
 Ltac good_tac := unfold good; open_row; close_row.
 
@@ -58,6 +58,11 @@ Proof.
   intro m. destruct m; unfold on_conn, conn_msg_simple, seq2, rel_dc, erase_td, choke_reqs, down_set_not_queued, idle_down,
     down_set_queued, up_set_queued, up_set_not_queued, seq2, rel_dc, erase_td; good_tac.
 Qed.
+
+Lemma good_snub : good (on_conn up_snub).
+Proof. unfold on_conn, up_snub. good_tac. Qed.
+Lemma good_unsnub : good (on_conn up_unsnub).
+Proof. unfold on_conn, up_unsnub. good_tac. Qed.
 
 Lemma good_lib_msg : forall m, good (on_conn (lib_msg_row m)).
 Proof.
